@@ -46,6 +46,7 @@ type Config struct {
 	Debug           bool
 	InitPkgs        []string // packages whose init is run eagerly (lenient)
 	Trace           bool
+	NoPOR           bool
 }
 
 type visitedShard struct {
@@ -70,8 +71,9 @@ type Engine struct {
 	opaqueFns   map[*ssa.Function]bool
 	StubsUsed   map[string]string
 
-	globals   map[*ssa.Global]uint32
-	globalsBy []*ssa.Global
+	globals       map[*ssa.Global]uint32
+	globalsBy     []*ssa.Global
+	overlayGlobal map[*ssa.Global]bool
 
 	gidMu sync.Mutex
 	gids  map[[2]uint32]uint32
@@ -220,8 +222,12 @@ func (e *Engine) load() error {
 		}
 		return a.Name() < b.Name()
 	})
+	e.overlayGlobal = map[*ssa.Global]bool{}
 	for i, g := range gl {
 		e.globals[g] = uint32(i + 1)
+		if pos := g.Pos(); pos.IsValid() && e.overlayFiles[prog.Fset.Position(pos).Filename] {
+			e.overlayGlobal[g] = true
+		}
 	}
 	e.globalsBy = gl
 	e.registerIntrinsics()
